@@ -1004,3 +1004,154 @@ Example C06_tr_put_runs :
   run 5 6 [55] [] = Some (CLite.VInt 1, Some [CLite.VInt 0], []) /\
   run 5 6 [50] [97] = Some (CLite.VInt 1, Some [CLite.VInt 0], []).
 Proof. exact TrExCmdsPut.run_put_examples. Qed.
+
+(* p (and the command line that is only an address).  early = no command name, no address and the current line is not a line: 1, from the frame memory.
+   Otherwise ex_region and ex_zero (fix 6c95ca8); then ex_print(lbuf_get(xb, i)) for i = beg, .., end - 1 IN THIS ORDER: pm 0 = the memory after ex_region,
+   pm (k + 1) = what the oracle leaves when called on pm k with lb->ln[beg + k] (TrExCmds.printed); every pm k still shows the buffer and the
+   command's locals (TrExCmds.print_view: bufs[0].lb -> a struct lbuf with ln_n = slen st and ln -> block bln = the table lnblk, beg and end in their
+   blocks); afterwards xrow = MAX(beg, end - 1) = the model's current line and xoff = 0. *)
+Theorem C06_tr_ec_print_entry : forall ext fuel D a0 a1 a2 a3 m,
+  CLiteExt.callx ext GenCFuncs.cprog fuel (S D) GenCFuncs.F_ec_print [a0; a1; a2; a3] m = TrExCmds.ec_print_run ext fuel D a0 a1 a2 a3 m CLite.VUndef.
+Proof. exact TrExCmds.ec_print_entry. Qed.
+Print Assumptions C06_tr_ec_print_entry.
+Theorem C06_tr_print_view : forall rvalid rfind (st : st) bl s bb be bln lnblk mx,
+  TrExCmds.print_view rvalid rfind st bl s bb be bln lnblk mx <->
+  (TrExCmds.len_view mx bl (slen st) /\
+   (exists lblk', nth_error mx bl = Some lblk' /\ nth_error lblk' TrLbufBase.L_ln_n = Some (CLite.VInt (slen st)) /\
+                  nth_error lblk' TrLbufBase.L_ln = Some (CLite.VPtr bln 0)) /\
+   nth_error mx bln = Some lnblk /\
+   nth_error mx bb = Some [CLite.VInt (snd (fst (fst (ex_region rvalid rfind s st))))] /\
+   nth_error mx be = Some [CLite.VInt (snd (fst (ex_region rvalid rfind s st)))]).
+Proof. exact TrExCmds.print_view_iff. Qed.
+Theorem C06_tr_printed : forall ext rvalid rfind (st : st) s lnblk pm,
+  TrExCmds.printed ext rvalid rfind st s lnblk pm <->
+  (let b := snd (fst (fst (ex_region rvalid rfind s st))) in let e := snd (fst (ex_region rvalid rfind s st)) in
+   forall k, (k < Z.to_nat (e - b))%nat ->
+   exists p o u, nth_error lnblk (Z.to_nat (b + Z.of_nat k)) = Some (CLite.VPtr p o) /\ ext GenCFuncs.X_ex_print [CLite.VPtr p o] (pm k) = CLite.Ok (u, pm (S k))).
+Proof. exact TrExCmds.printed_iff. Qed.
+Theorem C06_tr_ec_print : forall ext fuel rvalid rfind (st : st) m bs bl s gbufs lblk e0 d,
+  TrExCmds.cmd_pre m st bs bl s gbufs lblk -> GenCFuncs.G_xrow <> bs -> GenCFuncs.G_xrow <> bl ->
+  TrExCmds.zero_linked ext -> TrExAddr.int_ok e0 -> (2 * S (length s) <= fuel)%nat ->
+  forall bc cmd varg vtxt bln lnblk, CLiteProps.str_at m bc cmd -> nonul cmd -> bc <> GenCFuncs.G_xrow ->
+  nth_error lblk TrLbufBase.L_ln = Some (CLite.VPtr bln 0) -> nth_error m bln = Some lnblk -> bln <> GenCFuncs.G_xrow ->
+  let M := ec_print rvalid rfind s cmd st in
+  let R := ex_region rvalid rfind s st in let b := snd (fst (fst R)) in let e := snd (fst R) in
+  let early := TrExCmds.noaddr_nocmd s cmd && (slen st <=? xrow st) in
+  let cnt := Z.to_nat (e - b) in
+  let bb := length m in let be := S (length m) in let D := S (S (S (S d))) in
+  let mf := TrExCmds.frame_mem m CLite.VUndef (CLite.VInt e0) in
+  let run := TrExCmds.ec_print_run ext fuel D (CLite.VPtr bs 0) (CLite.VPtr bc 0) varg vtxt m (CLite.VInt e0) in
+  (early = true -> run = CLite.Ok (CLite.VInt 1, mf) /\ M = (st, 1)) /\
+  exists m1,
+    CLiteExt.callx ext GenCFuncs.cprog fuel D GenCFuncs.F_ex_region [CLite.VPtr bs 0; CLite.VPtr bb 0; CLite.VPtr be 0] mf
+      = CLite.Ok (CLite.VInt (CLite.b2z (fst (fst (fst R)))), m1) /\
+    TrExCmds.print_view rvalid rfind st bl s bb be bln lnblk m1 /\
+    (early = false -> snd M <> 0 ->
+       run = CLite.Ok (CLite.VInt (snd M), m1) /\ snd M = 1 /\ CLiteProps.cell_at m1 GenCFuncs.G_xrow (xrow (fst M)) /\ lb (fst M) = lb st) /\
+    (early = false -> snd M = 0 -> xrow (fst M) = Z.max b (e - 1) /\ forall pm x5 y5,
+       pm O = m1 -> (forall k, (1 <= k <= cnt)%nat -> TrExCmds.print_view rvalid rfind st bl s bb be bln lnblk (pm k)) ->
+       TrExCmds.printed ext rvalid rfind st s lnblk pm ->
+       CLiteProps.cell_at (pm cnt) GenCFuncs.G_xrow x5 -> CLiteProps.cell_at (pm cnt) GenCFuncs.G_xoff y5 -> (cnt < fuel)%nat ->
+       run = CLite.Ok (CLite.VInt 0, CLiteProps.upd (CLiteProps.upd (pm cnt) GenCFuncs.G_xrow [CLite.VInt (xrow (fst M))]) GenCFuncs.G_xoff [CLite.VInt 0])).
+Proof. exact TrExCmds.tr_ec_print. Qed.
+Print Assumptions C06_tr_ec_print.
+
+(* the null command (an address alone) in ex mode (xvis = 0): the CALL of ec_null is the CALL of ec_print on the memory where the current line went one
+   line down when there is one -- the model's ec_null is ec_print on set_xrow s (if xrow s + 1 <? slen s then xrow s + 1 else xrow s) by definition;
+   both sides are calls of cprog, so the frame remark does not apply to this equation.  The visual-mode branch (xvis != 0) is outside the model. *)
+Theorem C06_tr_ec_null : forall ext fuel D a0 a1 a2 a3 m x n bl,
+  CLiteProps.cell_at m GenCFuncs.G_xvis 0 -> CLiteProps.cell_at m GenCFuncs.G_xrow x -> TrExAddr.int_ok x -> TrExAddr.int_ok (x + 1) ->
+  TrExCmds.len_view m bl n -> a0 <> CLite.VUndef -> a1 <> CLite.VUndef -> a2 <> CLite.VUndef -> a3 <> CLite.VUndef ->
+  CLiteExt.callx ext GenCFuncs.cprog fuel (S (S D)) GenCFuncs.F_ec_null [a0; a1; a2; a3] m
+  = CLiteExt.callx ext GenCFuncs.cprog fuel (S D) GenCFuncs.F_ec_print [a0; a1; a2; a3]
+      (CLiteProps.upd (TrExCmds.frame_mem m CLite.VUndef CLite.VUndef) GenCFuncs.G_xrow [CLite.VInt (if x + 1 <? n then x + 1 else x)]).
+Proof. exact TrExCmds.tr_ec_null_ex. Qed.
+Print Assumptions C06_tr_ec_null.
+Theorem C06_model_null : forall rvalid rfind loc cmd (s : st),
+  ec_null rvalid rfind loc cmd s = ec_print rvalid rfind loc cmd (set_xrow s (if xrow s + 1 <? slen s then xrow s + 1 else xrow s)).
+Proof. exact (fun _ _ _ _ _ => eq_refl). Qed.
+
+(* =.  The frame is char msg[128] (block length m), beg, end.  ex_region, ex_zero (fix 6c95ca8); then sprintf(msg, "%d\n", end) with the model's number
+   (the model emits ONum end) and ex_print(msg) on the memory sprintf left.  xrow stays what ex_region left, the buffer is not touched. *)
+Theorem C06_tr_ec_lnum_entry : forall ext fuel D a0 a1 a2 a3 m,
+  CLiteExt.callx ext GenCFuncs.cprog fuel (S D) GenCFuncs.F_ec_lnum [a0; a1; a2; a3] m = TrExCmds.ec_lnum_run ext fuel D a0 a1 a2 a3 m CLite.VUndef.
+Proof. exact TrExCmds.ec_lnum_entry. Qed.
+Print Assumptions C06_tr_ec_lnum_entry.
+Theorem C06_tr_ec_lnum : forall ext fuel rvalid rfind (st : st) m bs bl s gbufs lblk e0 d vcmd varg vtxt,
+  TrExCmds.cmd_pre m st bs bl s gbufs lblk -> GenCFuncs.G_xrow <> bs -> GenCFuncs.G_xrow <> bl ->
+  TrExCmds.zero_linked ext -> TrExAddr.int_ok e0 -> (2 * S (length s) <= fuel)%nat ->
+  let M := ec_lnum rvalid rfind s st in
+  let R := ex_region rvalid rfind s st in
+  let bmsg := length m in let bb := S (length m) in let be := S (S (length m)) in let D := S (S (S (S d))) in
+  exists m1,
+    CLiteExt.callx ext GenCFuncs.cprog fuel D GenCFuncs.F_ex_region [CLite.VPtr bs 0; CLite.VPtr bb 0; CLite.VPtr be 0]
+      (TrExCmds.frame_mem (TrExCmds.msg_mem m) CLite.VUndef (CLite.VInt e0)) = CLite.Ok (CLite.VInt (CLite.b2z (fst (fst (fst R)))), m1) /\
+    CLiteProps.cell_at m1 GenCFuncs.G_xrow (xrow (fst M)) /\ lb (fst M) = lb st /\
+    (snd M <> 0 -> TrExCmds.ec_lnum_run ext fuel D (CLite.VPtr bs 0) vcmd varg vtxt m (CLite.VInt e0) = CLite.Ok (CLite.VInt (snd M), m1) /\
+                   snd M = 1 /\ out (fst M) = out st) /\
+    (snd M = 0 -> out (fst M) = ONum (snd (fst R)) :: out st /\ forall u m2 u' m3,
+       ext GenCFuncs.X_sprintf [CLite.VPtr bmsg 0; CLite.VPtr GenCFuncs.G_lit_25640a_3 0; CLite.VInt (snd (fst R))] m1 = CLite.Ok (u, m2) ->
+       ext GenCFuncs.X_ex_print [CLite.VPtr bmsg 0] m2 = CLite.Ok (u', m3) ->
+       TrExCmds.ec_lnum_run ext fuel D (CLite.VPtr bs 0) vcmd varg vtxt m (CLite.VInt e0) = CLite.Ok (CLite.VInt 0, m3)).
+Proof. exact TrExCmds.tr_ec_lnum. Qed.
+Print Assumptions C06_tr_ec_lnum.
+
+(* k.  No oracle besides the linked ex_zero: ex_region, ex_zero (fix 6c95ca8), then the TRANSLATED lbuf_mark(xb, (unsigned char) arg[0], end - 1, 0)
+   (C06_tr_lbuf_mark); TrLbufMarks.mark_blk = the struct lbuf with the mark's row and column stored; it holds the mark rows of the model's state after ec_mark *)
+Theorem C06_tr_ec_mark_entry : forall ext fuel D a0 a1 a2 a3 m,
+  CLiteExt.callx ext GenCFuncs.cprog fuel (S D) GenCFuncs.F_ec_mark [a0; a1; a2; a3] m = TrExCmds.ec_mark_run ext fuel D a0 a1 a2 a3 m CLite.VUndef.
+Proof. exact TrExCmds.ec_mark_entry. Qed.
+Print Assumptions C06_tr_ec_mark_entry.
+Theorem C06_tr_ec_mark : forall ext fuel rvalid rfind (st : st) m bs bl s gbufs lblk e0 d,
+  TrExCmds.cmd_pre m st bs bl s gbufs lblk -> GenCFuncs.G_xrow <> bs -> GenCFuncs.G_xrow <> bl ->
+  TrExCmds.zero_linked ext -> TrExAddr.int_ok e0 -> (2 * S (length s) <= fuel)%nat ->
+  forall vcmd ba arg vtxt, CLiteProps.str_at m ba arg -> nonul arg -> ba <> GenCFuncs.G_xrow -> length lblk = TrLbufBase.LBUF_CELLS ->
+  let M := ec_mark rvalid rfind s arg st in
+  let R := ex_region rvalid rfind s st in
+  let blk' := TrLbufMarks.mark_blk lblk (Z.of_N (hd0 arg)) (snd (fst R) - 1) 0 in
+  let bb := length m in let be := S (length m) in let D := S (S (S (S d))) in
+  exists m1,
+    CLiteExt.callx ext GenCFuncs.cprog fuel D GenCFuncs.F_ex_region [CLite.VPtr bs 0; CLite.VPtr bb 0; CLite.VPtr be 0]
+      (TrExCmds.frame_mem m CLite.VUndef (CLite.VInt e0)) = CLite.Ok (CLite.VInt (CLite.b2z (fst (fst (fst R)))), m1) /\
+    CLiteProps.cell_at m1 GenCFuncs.G_xrow (xrow (fst M)) /\
+    (snd M <> 0 -> TrExCmds.ec_mark_run ext fuel D (CLite.VPtr bs 0) vcmd (CLite.VPtr ba 0) vtxt m (CLite.VInt e0) = CLite.Ok (CLite.VInt (snd M), m1) /\
+                   snd M = 1 /\ lb (fst M) = lb st) /\
+    (snd M = 0 -> TrExCmds.ec_mark_run ext fuel D (CLite.VPtr bs 0) vcmd (CLite.VPtr ba 0) vtxt m (CLite.VInt e0)
+                  = CLite.Ok (CLite.VInt 0, if 0 <=? TrLbufMarks.midx (hd0 arg) then CLiteProps.upd m1 bl blk' else m1) /\
+                  TrLbufMarks.marks_rep blk' (marks (lb (fst M)))).
+Proof. exact TrExCmds.tr_ec_mark. Qed.
+Print Assumptions C06_tr_ec_mark.
+
+(* p / null / = / k RUN (TrExCmds.print_mem: five lines with the table of line pointers lb->ln = block bl + 4, the lines in bl + 5 .. bl + 9; log tag 4 =
+   ex_print, 5 = sprintf): `2,4p`: ex_print(lb->ln[1]), (lb->ln[2]), (lb->ln[3]), xrow = 3; `$p`; `0p`: 1, nothing printed (fix 6c95ca8); no address, current
+   line 5 of 5: 1; no address, current line 2: row 2.  The null command, the call itself: `%`: all five rows, xrow = 4; no address: the next row, xrow = 1;
+   on the last line: the last row.  `3=`: sprintf(msg, "%d\n", 3), ex_print(msg).  `3ka`: mark[0] = 2, its column 0, mark[1] still unset. *)
+Example C06_tr_print_runs :
+  let bl := length GenCFuncs.cglobals in
+  let args := [CLite.VPtr (S bl) 0; CLite.VPtr (S (S bl)) 0; CLite.VPtr (S (S (S bl))) 0; CLite.VInt 0] in
+  let ext := TrExCmds.log_ext 5 [] in
+  let run xr addr cmd :=
+    TrExCmds.show (TrExCmds.ec_print_run ext 100 10 (CLite.VPtr (S bl) 0) (CLite.VPtr (S (S bl)) 0) (CLite.VPtr (S (S (S bl))) 0) (CLite.VInt 0)
+                     (TrExCmds.print_mem xr addr cmd []) (CLite.VInt 0)) (bl + 12) in
+  let pr k := [CLite.VInt 4; CLite.VPtr (bl + k) 0] in
+  run 0 [50; 44; 52] [112] = Some (CLite.VInt 0, Some [CLite.VInt 3], [pr 6; pr 7; pr 8])%nat /\
+  run 0 [36] [112] = Some (CLite.VInt 0, Some [CLite.VInt 4], [pr 9])%nat /\
+  run 0 [48] [112] = Some (CLite.VInt 1, Some [CLite.VInt 0], []) /\
+  run 5 [] [] = Some (CLite.VInt 1, Some [CLite.VInt 5], []) /\
+  run 2 [] [] = Some (CLite.VInt 0, Some [CLite.VInt 2], [pr 7])%nat /\
+  TrExCmds.show (CLiteExt.callx ext GenCFuncs.cprog 100 12 GenCFuncs.F_ec_null args (TrExCmds.print_mem 0 [37] [] [])) (bl + 14)
+  = Some (CLite.VInt 0, Some [CLite.VInt 4], [pr 5; pr 6; pr 7; pr 8; pr 9])%nat /\
+  TrExCmds.show (CLiteExt.callx ext GenCFuncs.cprog 100 12 GenCFuncs.F_ec_null args (TrExCmds.print_mem 0 [] [] [])) (bl + 14)
+  = Some (CLite.VInt 0, Some [CLite.VInt 1], [pr 6])%nat /\
+  TrExCmds.show (CLiteExt.callx ext GenCFuncs.cprog 100 12 GenCFuncs.F_ec_null args (TrExCmds.print_mem 4 [] [] [])) (bl + 14)
+  = Some (CLite.VInt 0, Some [CLite.VInt 4], [pr 9])%nat /\
+  TrExCmds.show (TrExCmds.ec_lnum_run ext 100 10 (CLite.VPtr (S bl) 0) (CLite.VPtr (S (S bl)) 0) (CLite.VPtr (S (S (S bl))) 0) (CLite.VInt 0)
+                   (TrExCmds.print_mem 0 [51] [61] []) (CLite.VInt 0)) (bl + 13)
+  = Some (CLite.VInt 0, Some [CLite.VInt 0],
+          [[CLite.VInt 5; CLite.VPtr (bl + 10) 0; CLite.VPtr GenCFuncs.G_lit_25640a_3 0; CLite.VInt 3]; [CLite.VInt 4; CLite.VPtr (bl + 10) 0]])%nat /\
+  match TrExCmds.ec_mark_run ext 100 10 (CLite.VPtr (S bl) 0) (CLite.VPtr (S (S bl)) 0) (CLite.VPtr (S (S (S bl))) 0) (CLite.VInt 0)
+          (TrExCmds.print_mem 0 [51] [107] [97]) (CLite.VInt 0) with
+  | CLite.Ok (v, m') => Some (v, option_map (fun blk => (nth 0 blk CLite.VUndef, nth 32 blk CLite.VUndef, nth 1 blk CLite.VUndef)) (nth_error m' bl))
+  | CLite.Err _ => None
+  end = Some (CLite.VInt 0, Some (CLite.VInt 2, CLite.VInt 0, CLite.VInt (-1))).
+Proof. exact TrExCmds.run_print_examples. Qed.
